@@ -71,6 +71,11 @@ func globals() native.Declarations {
 	f := 1.5
 	b := []byte{1, 2, 3, 250, 60}
 	var nb []byte
+	// a byte slice much longer than any encoder chunk or buffer (Base64 streaming)
+	lb := make([]byte, 5000)
+	for i := range lb {
+		lb[i] = byte(i*7 + i/13)
+	}
 	m := map[string]any{"k": 1, "j": []int{1, 2}, "s": S{A: 1, B: "x", C: []string{"<", ">"}}}
 	sl := []any{1, "two", 3.5, nil, []byte("xy")}
 	st := S{A: 7, B: "bee", C: []string{"c1", "c2"}}
@@ -79,7 +84,7 @@ func globals() native.Declarations {
 	long := longValue
 	var err error = errors.New("an <error>")
 	return native.Declarations{
-		"s": &s, "q": &q, "e": &e, "n": &n, "f": &f, "b": &b, "nb": &nb, "m": &m, "sl": &sl, "st": &st, "h": &h, "md": &md, "long": &long, "err": &err,
+		"s": &s, "q": &q, "e": &e, "n": &n, "f": &f, "b": &b, "nb": &nb, "lb": &lb, "m": &m, "sl": &sl, "st": &st, "h": &h, "md": &md, "long": &long, "err": &err,
 	}
 }
 
@@ -106,6 +111,8 @@ func templates(tier string) []tcase {
 		one("js-string", "html", "<script>var a = \"{{ s }}\"; var b = '{{ n }}';</script>"),
 		one("js-attr", "html", "<p onclick=\"f({{ s }}, '{{ s }}')\">x</p>"),
 		one("js-bytes", "html", "<script>var x = {{ b }}; var y = {{ nb }};</script><p>{{ b }}{{ nb }}</p>"),
+		one("long-bytes", "html", "<script>var x = {{ lb }};</script><style>a { b: '{{ lb }}' }</style><p>{{ lb }}</p>"),
+		one("long-bytes-json", "json", "{\"d\": {{ lb }}}"),
 		one("json", "html", "<script type=\"application/ld+json\">{\"a\": {{ s }}, \"b\": {{ m }}, \"c\": {{ st }}, \"d\": {{ b }}, \"e\": \"{{ s }}\"}</script>"),
 		one("file-js", "js", "var a = {{ s }}; var b = \"{{ s }}\"; var c = {{ sl }};"),
 		one("file-json", "json", "{\"a\": {{ s }}, \"b\": \"{{ s }}\", \"c\": {{ m }}}"),
